@@ -146,12 +146,13 @@ def game_hash(g):
 
 REENTRANT_EVERY = int(os.environ.get("VERIF_REENTRANT_EVERY", "6"))
 REENTRANT_STATS = {"calls": 0}
+CALL_STATS = {"positional": 0, "selector_reused": 0}
 INTERLEAVE_FAILURES = []      # drained by the runner: (text, game)
 
 
 def nested_game(g):
     """an unrelated game rated on the SAME model object while the outer call is in progress"""
-    teams = [[(m * 0.5 + g["beta"], s * 1.25) for (m, s) in t] for t in reversed(g["teams"])]
+    teams = [[(m * 0.5 + g["beta"], s * 1.25 + 0.01 * g["beta"]) for (m, s) in t] for t in reversed(g["teams"])]
     teams = teams + [teams[0][:1]]
     n = len(teams)
     ranks = [(i * 2 + 1) % n if n % 2 else (i + 1) % n for i in range(n)]
@@ -171,7 +172,26 @@ def call_rate(model, teams, g, reentrant=None):
     if reentrant is None:
         reentrant = REENTRANT_EVERY > 0 and game_hash(g) % REENTRANT_EVERY == 0
     if not reentrant:
-        return model.rate(teams, **kw)
+        h = game_hash(g)
+        sel = kw.get("ranks", kw.get("scores"))
+        before = list(sel) if sel is not None else None
+        if h % 5 == 3 and sel is not None:
+            # the documented positional form: rate(teams, ranks, scores, tau, limit_sigma)
+            CALL_STATS["positional"] += 1
+            rest = {k_: v_ for k_, v_ in kw.items() if k_ not in ("ranks", "scores")}
+            out = model.rate(teams, kw["ranks"], **rest) if "ranks" in kw else model.rate(teams, None, kw["scores"], **rest)
+        else:
+            out = model.rate(teams, **kw)
+        if sel is not None and (len(sel) != len(before) or any(a is not b and a != b for a, b in zip(sel, before))):
+            INTERLEAVE_FAILURES.append(("rate() modified the caller's ranks/scores list: %r -> %r (a second call reusing the list would see another outcome)" % (before, sel), g))
+        elif h % 4 == 2 and sel is not None:
+            # the same selector list object reused for an identical second call on fresh rating objects
+            CALL_STATS["selector_reused"] += 1
+            first = [[(p.mu, p.sigma) for p in t] for t in out]
+            again = model.rate(build_teams(model, g), **kw)
+            if [[(p.mu, p.sigma) for p in t] for t in again] != first:
+                INTERLEAVE_FAILURES.append(("an identical second rate() call reusing the same ranks/scores list returns a different result", g))
+        return out
     # Deterministic interleaving (C14, and every property of rate under concurrent use): while the
     # outer call is inside _compute, the gamma callback runs a complete, unrelated rate() on the same
     # model object, as a second thread scheduled at that point would.  On code that keeps no per-call
